@@ -1,33 +1,44 @@
 """C02 — an accepted configuration yields exactly the typed value tree the schema defines"""
-from .. import cfgrun, cfgstream, core
+from .. import cfggen, cfgrun, cfgstream, core
 
 RULE = ("same schema family restricted to datatypes with a reference conversion in the model; mostly valid texts "
-        "(0..1 faults); the whole value tree is compared attribute by attribute (names, order, values, types, section "
+        "(0..1 faults), keys whose datatype converts the empty string also given WITH the empty value (alone on their line "
+        "or through a reference to an empty definition); the whole value tree is compared attribute by attribute (names, order, values, types, section "
         "names and types); non-trivial = accepted with at least one key or section; distinct by (schema, text)")
 
 
 def run(ctx):
     obligations, discharged, names = core.standard_prelude(ctx, ["ZCV.Props.C02"])
     n_s, n_t = (1500, 50) if ctx.thorough() else (120, 25)
-    cases = cfgstream.gen_cases(ctx, n_s, n_t, nfaults=(0, 0, 0, 1))
+    cases = cfgstream.gen_cases(ctx, n_s, n_t, nfaults=(0, 0, 0, 1), pempty=0.15)
     cfgstream.evaluate(ctx, cases, with_spec=True)
     bad = []
+    bad_spec = []
     for c in cases:
         ctx.count("impl:" + c.out[0])
         if c.out[0] != "ok" or c.model is None:
             continue
         if c.lines:
             ctx.nontriv((id(c.sd), tuple(c.lines)))
+        for k in set(cfggen.empty_given(c.elab, c.meta["items"])):
+            ctx.count("accepted-with-empty-value:" + k)      # a key that is present holds the conversion of '', not its default
         # ORACLE: the declarative `denote` of ZCV/Spec/Conforms.lean
-        if c.spec is not None and c.spec[0] == "accept" and not cfgrun.match_val(c.spec[1], c.cfg):
-            ctx.violate("accepted text yields a value tree different from the one the schema defines (denote)",
-                        dict(c.replay(), impl=cfgrun.describe(c.cfg), expected=c.spec[1]), signature="C02:value-tree")
+        if _off_spec(c):
+            bad_spec.append(c)
             continue
         if c.model[0] != "ok":
             continue      # accept/reject is C01's observable
         if not cfgrun.match_val(c.model[1], c.cfg):
             bad.append(c)
             ctx.disagree("value", c.replay(), cfgrun.describe(c.cfg), c.model[1])
+    for c in bad_spec[:3]:
+        # (the replay names the smallest text found on which the loader's tree still differs from `denote`)
+        c.lines = cfgstream.shrink_lines(ctx, c, lambda cs: [_off_spec(x) for x in cs], with_spec=True)
+        cfgstream.evaluate(ctx, [c], with_spec=True)
+    for c in bad_spec:
+        if _off_spec(c):
+            ctx.violate("accepted text yields a value tree different from the one the schema defines (denote)",
+                        dict(c.replay(), impl=cfgrun.describe(c.cfg), expected=c.spec[1]), signature="C02:value-tree")
     for c in bad[:3]:
         small = cfgstream.shrink_lines(ctx, c, lambda cs: [x.out[0] == "ok" and x.model[0] == "ok" and not cfgrun.match_val(x.model[1], x.cfg) for x in cs])
         c.lines = small
@@ -43,6 +54,11 @@ def run(ctx):
     return core.finish(ctx, obligations, discharged, names, RULE,
                        "lake build ZCV.Props.C02 && lake env lean ZCV/Audit/C02.lean",
                        ["float values compared as float(literal) == value", "schema object = expected elaboration (digest checked per schema)"])
+
+
+def _off_spec(c):
+    """accepted by the loader and by `conforms`, with a value tree that is not `denote`'s"""
+    return (c.out[0] == "ok" and c.spec is not None and c.spec[0] == "accept" and not cfgrun.match_val(c.spec[1], c.cfg))
 
 
 def _prefixed_datatypes(ctx):
